@@ -84,7 +84,72 @@ fn session<T: Pixel>(sh: &mut Shards, c: &Cfg, st: u8, rng: &mut Rng) {
     sh.emit(&s);
 }
 
-pub fn gen_c09(sh: &mut Shards, o: &Opts) -> serde_json::Value {
+/// H.273 quantisation in f64, used ONLY to construct an in-gamut YUV input that does not come out of the crate's own
+/// encoder; TLC re-checks on the logged RGB that every input code is within half a code of EncodeIdeal (domain check).
+fn encode_indep(c: &Cfg, p: &[f32; 3]) -> [u16; 3] {
+    let (r, g, b) = (f64::from(p[0]), f64::from(p[1]), f64::from(p[2]));
+    let (y, cb, cr) = if c.mc == 8 {
+        (0.25 * r + 0.5 * g + 0.25 * b, -0.25 * r + 0.5 * g - 0.25 * b, 0.5 * r - 0.5 * b)
+    } else {
+        let (kr, kb) = match c.mc {
+            1 => (0.2126, 0.0722),
+            4 => (0.30, 0.11),
+            5 | 6 => (0.299, 0.114),
+            7 => (0.212, 0.087),
+            _ => (0.2627, 0.0593),
+        };
+        let y = kr * r + (1.0 - kr - kb) * g + kb * b;
+        (y, (b - y) / (2.0 * (1.0 - kb)), (r - y) / (2.0 * (1.0 - kr)))
+    };
+    let k = f64::from(1u32 << (c.n - 8));
+    let maxc = f64::from((1u32 << c.n) - 1);
+    let (ys, yo, cs, co) = if c.full { (maxc, 0.0, maxc, f64::from(1u32 << (c.n - 1))) } else { (219.0 * k, 16.0 * k, 224.0 * k, 128.0 * k) };
+    let q = |v: f64| v.round().clamp(0.0, maxc) as u16;
+    [q(ys * y + yo), q(cs * cb + co), q(cs * cr + co)]
+}
+
+fn session_indep<T: Pixel>(sh: &mut Shards, c: &Cfg, st: u8, rng: &mut Rng) {
+    let (w, h) = (8usize, 8usize);
+    let px = image(rng, w, h, 1 << c.ssx, 1 << c.ssy);
+    let codes: Vec<[u16; 3]> = px.iter().map(|p| encode_indep(c, p)).collect();
+    let mut s = String::new();
+    let _ = write!(s, "\"ev\":\"c09i\",\"cfg\":{},\"st\":{st},\"w\":{w},\"h\":{h},\"rgb\":", c.json());
+    list(&mut s, &px, crate::util::px_fx);
+    s.push_str(",\"codes\":");
+    list(&mut s, &codes, |o, v| {
+        let _ = write!(o, "[{},{},{}]", v[0], v[1], v[2]);
+    });
+    let r: Result<(), String> = (|| {
+        let yuv = Yuv::<T>::new(crate::frames::frame_from_pixels::<T>(&codes, w, h, c.ssx, c.ssy, [(0, 0); 3]), c.yuv_config()).map_err(|e| format!("ctor:{}", crate::frames::err_name_yuv(e)))?;
+        let xyb = Xyb::try_from(&yuv).map_err(|e| format!("YuvToXyb:{}", crate::frames::err_name_conv(e)))?;
+        let back = Yuv::<T>::try_from((xyb, yuv.config())).map_err(|e| format!("XybToYuv:{}", crate::frames::err_name_conv(e)))?;
+        let _ = write!(s, ",\"cfgi\":{},\"cfgo\":{},\"wo\":{},\"ho\":{},\"in\":[", cfg_json_of(&yuv.config()), cfg_json_of(&back.config()), back.width(), back.height());
+        for (k, y) in [&yuv, &back].iter().enumerate() {
+            if k == 1 {
+                s.push_str("],\"out\":[");
+            }
+            for p in 0..3 {
+                if p > 0 {
+                    s.push(',');
+                }
+                list(&mut s, &plane_samples(y, p), |o, v| {
+                    let _ = write!(o, "{v}");
+                });
+            }
+        }
+        s.push(']');
+        Ok(())
+    })();
+    match r {
+        Ok(()) => s.push_str(",\"res\":\"ok\""),
+        Err(e) => {
+            let _ = write!(s, ",\"res\":\"{e}\"");
+        }
+    }
+    sh.emit(&s);
+}
+
+pub fn gen_c09(sh: &mut Shards, o: &Opts, indep: bool) -> serde_json::Value {
     let subs = [(0u8, 0u8), (1, 0), (1, 1), (0, 1), (2, 0), (2, 2)];
     let mut k = (o.seed % 54) as usize;
     let mut n = 0u64;
@@ -111,10 +176,11 @@ pub fn gen_c09(sh: &mut Shards, o: &Opts) -> serde_json::Value {
                     for (d, (sx, sy)) in combos {
                         let c = Cfg { mc: m, tc: t, cp: p, full, n: d, ssx: sx, ssy: sy };
                         let mut rng = Rng::new(o.seed, 0x0909_0000 + n);
-                        if d == 8 && n % 2 == 0 {
-                            session::<u8>(sh, &c, 8, &mut rng);
-                        } else {
-                            session::<u16>(sh, &c, 16, &mut rng);
+                        match (d == 8 && n % 2 == 0, indep) {
+                            (true, false) => session::<u8>(sh, &c, 8, &mut rng),
+                            (true, true) => session_indep::<u8>(sh, &c, 8, &mut rng),
+                            (false, false) => session::<u16>(sh, &c, 16, &mut rng),
+                            (false, true) => session_indep::<u16>(sh, &c, 16, &mut rng),
                         }
                         n += 1;
                     }
